@@ -956,6 +956,21 @@ def problemAfter (pat : Text) : Text → Bool
       | some r => isTypedpyProblem r
       | none => false) || problemAfter pat cs
 
+/-- some occurrence of `pat` in `t` is followed by a non-empty text -/
+def nonEmptyAfter (pat : Text) : Text → Bool
+  | [] => false
+  | c :: cs => (match dropPre pat (c :: cs) with
+      | some r => !r.isEmpty
+      | none => false) || nonEmptyAfter pat cs
+
+/-- the side condition of the render → parse theorems (`goodTexts`), read off a real message body:
+    a non-empty problem where the shape puts it, not starting with `G` (`;`) for the two shapes that
+    do not begin with `Got ` -/
+def bodyWellFormed : Shape → Text → Bool
+  | .gotFirst, rest => nonEmptyAfter sSemiSp rest
+  | .gotLast, rest => !rest.isEmpty && rest.head? != some 'G'
+  | .plain, rest => !rest.isEmpty && rest.head? != some 'G' && rest.head? != some ';'
+
 /-- the text after `<path>: ` has the model's shape around a typedpy problem text -/
 def bodyHasTemplate : Shape → Text → Bool
   | .gotFirst, rest => problemAfter sSemiSp rest
